@@ -283,6 +283,22 @@ def prog_model(env, case):
     else:
         rec = rows_from_real_cvxpy(w)
     check_recorded(env, m, rec, backend, tag, spec)
+    # every LMI declared through a reused work array still holds the entries it was declared with
+    from PEPit import Expression as _Expression
+    for li, (pm, entries) in enumerate(getattr(m, 'lmi_entries', [])):
+        same = True
+        for i in range(len(entries)):
+            for j in range(len(entries)):
+                want = entries[i][j]
+                got = pm[i, j]
+                if isinstance(want, _Expression):
+                    same = same and sdp.same_row(env, dict(kind='eq', form=dict(canon(want)), const=0),
+                                                 dict(kind='eq', form=dict(canon(got)), const=0), prove=True)
+                else:
+                    same = same and sdp.same_row(env, dict(kind='eq', form={'c': want}, const=0),
+                                                 dict(kind='eq', form=dict(canon(got)), const=0), prove=True)
+        env.check(same, "LMI %d no longer holds the entries it was declared with (its matrix is the caller's work array)" % li,
+                  signature=tag + ":lmi-entries-changed")
     # sending the model must not edit it: the user's declaration lists hold the same objects as before the solve
     after = _declarations(m.pep, _Function)
     changed = [k for k in declared_before if k not in after or len(after[k]) != len(declared_before[k])
@@ -328,6 +344,7 @@ def cases(tier):
     add("composite-inexact-temporary", second='convex', steps=['inexact', 'prox'], temporary_composite=True)
     add("qg-late-leaf", fclass='qg', stationary=False)
     add("function-lmi", function_lmi=True)
+    add("lmi-work-array", lmis=['sym2', 'nonsym2b'], lmi_buffer=True, lmi_metric=False)
     add("function-lmi-and-constraint", function_lmi=True, function_lmi_with_constraint=True, lmis=['one'])
     add("partition", partition=2)
     add("two-partitions", partition=2, second_partition=3)
